@@ -572,6 +572,17 @@ class Mesh(Observable):
         list_normal = []
         list_nodes: list[int] = []  # used nodes in nodes
 
+        # the normals follow the nodes order of the boundary elements, which goes with the
+        # orientation of the elements they bound: a mirrored mesh holds negatively oriented ones
+        orientation_n = np.zeros(self.coord.shape[0])
+        if dim == self.inDim:
+            for groupElem in self.Get_list_groupElem(dim):
+                jacobian_e_pg = groupElem.Get_jacobian_e_pg(
+                    MatrixType.mass, absoluteValues=False
+                )
+                orientation_e = np.sign(np.asarray(jacobian_e_pg)[:, :1])
+                np.add.at(orientation_n, groupElem.connect, orientation_e)
+
         # for each elements on the boundary
         for groupElem in self.Get_list_groupElem(dim - 1):
             elements = groupElem.Get_Elements_Nodes(nodes, True)
@@ -590,6 +601,8 @@ class Mesh(Observable):
                 MatrixType.mass, displacementMatrix
             )
             normal_e = normal_e_pg[elements].integrate()
+            isMirrored_e = orientation_n[groupElem.connect[elements]].sum(axis=1) < 0
+            normal_e[isMirrored_e] *= -1
 
             # here we want to get the normal vector on the nodes
             # need to get the nodes connectivity
